@@ -76,6 +76,12 @@ def run(tier, seed, verdict):
                               "tlc_properties": ["TicksXorLink", "LinkOK", "RefusedUnchanged", "AliasReports", "DimFrame"]}
     cov["samples"].extend(drun.samples[:1])
     cov["checker_cmd"] += " ;; " + drun.res.cmd
+    # Binding B (code -> specification): recorded random executions over a larger universe (four targets incl. a data
+    # frame, four descriptors, three tokens) validated by TLC against NixDimLinkTrace.tla
+    from . import tracedim
+    tinfo = tracedim.run_binding_b(seed, 25 if quick else 400, 60, verdict)
+    cov["binding_b_dimension_links"] = tinfo
+    cov["traces_validated_against_impl"] += tinfo["traces"] if tinfo.get("accepted") else 0
     cov["rule"] += "; dimension links (NixDimLink): every history of appending sampled / range / set descriptors, setting "\
                    "explicit ticks / labels, label and unit (own or through the link), linking to rank-1 and rank-2 targets "\
                    "with every legal and illegal index specification, unlinking, changing the target's data / unit / label "\
